@@ -277,7 +277,8 @@ def gen_schema(rng, want=None, types_upper=None, profile=None):
 
     if profile.get('bad_type') and rng.random() < profile['bad_type']:
         classes.append({'kind': 'Bad%d' % counter['k'], 'bad': True,
-                        'attrs': [['Id', T('unique_id')], ['Weird', rng.choice(['void', 'inst_ref', 'date'])]]})
+                        'attrs': [['Id', T('unique_id')], ['Weird', rng.choice(['void', 'inst_ref', 'date', 'int', 'bool', 'str', 'id', 'unique', 'e', 'eger',
+                                                                       'string_', 'Real8', 'uniqueid'])]]})
     return {'classes': classes, 'assocs': assocs, 'uniques': uniques}
 
 
